@@ -13,21 +13,28 @@ From LR Require Import lib.Base model.XBinary model.LogEvent model.Wire model.Jo
 Open Scope Z_scope.
 
 (* ---------- iwrapper over a model.Iterator (a state machine serving LogEvents) ---------- *)
+(* iw.maxRecSize > 0 && int64(WritableSize()) > iw.maxRecSize; [mr] = 0: not limited *)
+Definition too_big (mr : Z) (e : levent) : bool := (0 <? mr) && (mr <? Z.of_nat (writable_size e)).
+
 Section IWrapper.
 Variable T : Type.
-Variable lit_get : T -> T * outcome levent.
+Variable lit_get : T -> T * outcome (option levent).   (* model.Iterator.Get: event | io.EOF | another error *)
 Variable lit_next : T -> T.
+Variable mr : Z.                                        (* iw.maxRecSize *)
 
-(* iwrapper.Get: its `read` flag is never set, so every call asks the wrapped iterator and marshals
-   the event into a buffer of WritableSize() bytes *)
-Definition iw_get (s : T) : T * outcome bytes :=
+(* iwrapper.Get: its `read` flag is never set, so every call asks the wrapped iterator; an error of the wrapped
+   iterator is handed through; an event whose record would exceed the limit is refused with ErrRecordTooBig
+   (before anything is marshalled); otherwise the event is marshalled into a buffer of WritableSize() bytes *)
+Definition iw_get (s : T) : T * outcome (option bytes) :=
   match lit_get s with
-  | (s', Ok e) => (s', Ok (marshal_into (writable_size e) e))
+  | (s', Ok (Some e)) => if too_big mr e then (s', Err) else (s', Ok (Some (marshal_into (writable_size e) e)))
+  | (s', Ok None) => (s', Ok None)
   | (s', Err) => (s', Err)
   | (s', Panic) => (s', Panic)
   | (s', OutOfFuel) => (s', OutOfFuel)
   end.
 Definition iw_next (s : T) : T := lit_next s.
+End IWrapper.
 
 (* pos.Idx - uint32(n) *)
 Definition u32_sub (a : N) (n : nat) : N := ((a + 4294967296 - (N.of_nat n mod 4294967296)) mod 4294967296)%N.
@@ -35,15 +42,22 @@ Definition u32_sub (a : N) (n : nat) : N := ((a + 4294967296 - (N.of_nat n mod 4
 (* WriteEvent: StartPos, EndPos *)
 Definition wevent := (jpos * jpos)%type.
 
-(* Service.Write, the loop: for { n, pos, err1 := jrnl.Write(&iw); if n > 0 { ...StartPos = pos - n on the first
-   round; EndPos = pos }; if err1 != nil { if n <= 0 { err = ... }; break }; if iw.Get() fails { break } }
+(* Service.Write, the loop, over the record iterator [g]/[nx] (the iwrapper):
+   for { n, pos, err1 := jrnl.Write(&iw); if n > 0 { ...StartPos = pos - n on the first round; EndPos = pos };
+         if err1 != nil { if n <= 0 { err = ... }; break };
+         if _, err1 = iw.Get(); err1 != nil { if err1 != io.EOF { err = ... }; break } }
    result: journal, iterator, write event (if any record was written), failed? *)
-Fixpoint sw_loop (rounds fuel : nat) (cfg : jcfg) (j : journal) (s : T) (we : option wevent)
-  : outcome (journal * T * option wevent * bool) :=
+Section ServiceLoop.
+Variable St : Type.
+Variable g : St -> St * outcome (option bytes).
+Variable nx : St -> St.
+
+Fixpoint sw_loop (rounds fuel : nat) (cfg : jcfg) (j : journal) (s : St) (we : option wevent)
+  : outcome (journal * St * option wevent * bool) :=
   match rounds with
   | O => OutOfFuel
   | S rd =>
-      obind (journal_write T iw_get iw_next fuel cfg j s) (fun '(j', s', n, pos, e) =>
+      obind (journal_write St g nx fuel cfg j s) (fun '(j', s', n, pos, e) =>
         let we' := if (0 <? n)%nat then
                      Some (match we with
                            | None => (fst pos, u32_sub (snd pos) n)
@@ -52,23 +66,24 @@ Fixpoint sw_loop (rounds fuel : nat) (cfg : jcfg) (j : journal) (s : T) (we : op
                    else we in
         match e with
         | WNil =>
-            match iw_get s' with
-            | (s'', Ok _) => sw_loop rd fuel cfg j' s'' we'
-            | (s'', Err) => Ok (j', s'', we', false)
+            match g s' with
+            | (s'', Ok (Some _)) => sw_loop rd fuel cfg j' s'' we'
+            | (s'', Ok None) => Ok (j', s'', we', false)
+            | (s'', Err) => Ok (j', s'', we', true)
             | (_, Panic) => Panic
             | (_, OutOfFuel) => OutOfFuel
             end
         | _ => Ok (j', s', we', (n <=? 0)%nat)
         end)
   end.
-End IWrapper.
+End ServiceLoop.
 
 (* ---------- the two iterators that are handed to Service.Write ---------- *)
 (* a plain slice of LogEvents (what a direct caller of Service.Write passes) *)
-Definition ls_get (l : list levent) : list levent * outcome levent :=
+Definition ls_get (l : list levent) : list levent * outcome (option levent) :=
   match l with
-  | [] => (l, Err)
-  | e :: _ => (l, Ok e)
+  | [] => (l, Ok None)
+  | e :: _ => (l, Ok (Some e))
   end.
 Definition ls_next (l : list levent) : list levent := tl l.
 
@@ -96,26 +111,29 @@ Variable fparse : bytes -> outcome bytes.
 Variable norm : bytes -> outcome bytes.
 Variable as_kv : bytes -> bytes.
 
-(* Service.Write(tags, it): GetOrCreateJournal(tags) fails => error, nothing written *)
-Definition svc_write (T : Type) (g : T -> T * outcome levent) (nx : T -> T)
+(* Service.Write(tags, it): GetOrCreateJournal(tags) fails => error, nothing written; otherwise the loop runs
+   over the iwrapper around [it], whose limit is Service.maxRecordSize() *)
+Definition svc_write (T : Type) (g : T -> T * outcome (option levent)) (nx : T -> T)
     (fuel : nat) (cfg : jcfg) (srv : server) (tags : bytes) (it : T) : outcome (server * wres) :=
   match norm tags with
   | Ok key =>
-      obind (sw_loop T g nx fuel fuel cfg (srv_get srv key) it None) (fun '(j', _, we, failed) =>
+      obind (sw_loop T (iw_get T g (w_limit cfg)) (iw_next T nx) fuel fuel cfg (srv_get srv key) it None) (fun '(j', _, we, failed) =>
         Ok (srv_set srv key j', {| r_ack := negb failed; r_we := we |}))
   | Err => Ok (srv, {| r_ack := false; r_we := None |})
   | Panic => Panic
   | OutOfFuel => OutOfFuel
   end.
 
-(* ServerIngestor.write: wpIterator.init(body); on success Journals.Write(wpi.tags, &wpi) *)
-Definition ingest (fuel : nat) (cfg : jcfg) (srv : server) (body : bytes) : outcome (server * wres) :=
+(* ServerIngestor.write: wpIterator.init(body); on success Journals.Write(wpi.tags, &wpi).
+   [eof_on_error] selects the packet iterator: false = the code, true = the iterator before its repair *)
+Definition ingest_v (eof_on_error : bool) (fuel : nat) (cfg : jcfg) (srv : server) (body : bytes) : outcome (server * wres) :=
   match wp_init fparse body with
-  | Ok (tags, it) => svc_write wpit (wp_get fparse) wp_next fuel cfg srv tags it
+  | Ok (tags, it) => svc_write wpit (wp_get_v fparse eof_on_error) wp_next fuel cfg srv tags it
   | Err => Ok (srv, {| r_ack := false; r_we := None |})
   | Panic => Panic
   | OutOfFuel => OutOfFuel
   end.
+Definition ingest : nat -> jcfg -> server -> bytes -> outcome (server * wres) := ingest_v false.
 
 (* a client Write over RPC: clntIngestor.Write encodes the packet, the server ingests it *)
 Definition rpc_write (fuel : nat) (cfg : jcfg) (srv : server) (op : wop) : outcome (server * wres) :=
@@ -165,38 +183,55 @@ Definition in_int64 (z : Z) : Prop := -9223372036854775808 <= z < 92233720368547
 Definition spec_levent (wf : bytes) (e : api_event) : levent :=
   {| le_ts := ae_ts e; le_msg := ae_msg e; le_flds := wf ++ field_parse fparse (ae_flds e) |}.
 
-(* the events a request adds to partition [key] when it is acknowledged *)
-Definition spec_req (key : bytes) (r : req) : list levent :=
+(* the partition and the events of a request whose tags and write-level fields are accepted *)
+Definition spec_batch (r : req) : option (bytes * list levent) :=
   match r with
   | RpcW op =>
       match fparse (w_flds op), norm (w_tags op) with
-      | Ok wf, Ok k => if bytes_eqb k key then map (spec_levent wf) (w_evs op) else []
-      | _, _ => []
+      | Ok wf, Ok k => Some (k, map (spec_levent wf) (w_evs op))
+      | _, _ => None
       end
   | DirW tags evs =>
       match norm tags with
-      | Ok k => if bytes_eqb k key then evs else []
-      | _ => []
+      | Ok k => Some (k, evs)
+      | _ => None
       end
-  | RawW _ => []
+  | RawW _ => None
   end.
-Definition spec_content (key : bytes) (rs : list req) : list revent :=
-  map (to_revent key) (concat (map (spec_req key) rs)).
 
-(* which requests the specification expects to be acknowledged *)
-Definition spec_ack (r : req) : bool :=
-  match r with
-  | RpcW op => match fparse (w_flds op), norm (w_tags op) with Ok _, Ok _ => true | _, _ => false end
-  | DirW tags _ => match norm tags with Ok _ => true | _ => false end
-  | RawW _ => false
+(* the events of a batch up to the first one whose record exceeds the write limit; whether there is such an event *)
+Fixpoint fit_prefix (mr : Z) (evs : list levent) : list levent :=
+  match evs with
+  | [] => []
+  | e :: tl => if too_big mr e then [] else e :: fit_prefix mr tl
   end.
+Definition has_big (mr : Z) (evs : list levent) : bool := existsb (too_big mr) evs.
+
+(* which requests the specification expects to be acknowledged: tags and fields accepted and no record of the
+   batch above the limit (such a record could not be served back) *)
+Definition spec_ack (cfg : jcfg) (r : req) : bool :=
+  match spec_batch r with
+  | Some (_, evs) => negb (has_big (w_limit cfg) evs)
+  | None => false
+  end.
+
+(* the events a request adds to partition [key]: the whole batch when it is acknowledged; of a batch that is
+   rejected because of an oversize event, the events before that one (the write path is streaming: they are
+   stored, unacknowledged, and readable); nothing otherwise *)
+Definition spec_req (cfg : jcfg) (key : bytes) (r : req) : list levent :=
+  match spec_batch r with
+  | Some (k, evs) => if bytes_eqb k key then fit_prefix (w_limit cfg) evs else []
+  | None => []
+  end.
+Definition spec_content (cfg : jcfg) (key : bytes) (rs : list req) : list revent :=
+  map (to_revent key) (concat (map (spec_req cfg key) rs)).
 
 End WithEnv.
 
 (* ---------- K concurrent writers on one journal ---------- *)
 (* Every writer runs Service.Write's loop on its own slice of events; one atomic step of writer w is
    one iteration of that loop: one jrnl.Write call (the chunk writer's lock) followed by the writer's
-   private iw.Get.  [log] is a ghost: which writer appended which record, in journal order. *)
+   private iw.Get (which also tells whether the writer goes on, is done, or fails on an oversize event).  [log] is a ghost: which writer appended which record, in journal order. *)
 Record writer := { wr_it : list levent; wr_done : bool; wr_failed : bool }.
 Record cstate := { cs_j : journal; cs_ws : list writer; cs_log : list (nat * bytes) }.
 
@@ -207,15 +242,19 @@ Definition cstep (fuel : nat) (cfg : jcfg) (st : cstate) (w : nat) : outcome cst
   | None => Ok st
   | Some wr =>
       if wr_done wr then Ok st else
-      obind (journal_write (list levent) (iw_get (list levent) ls_get) (iw_next (list levent) ls_next) fuel cfg (cs_j st) (wr_it wr))
+      let g := iw_get (list levent) ls_get (w_limit cfg) in
+      obind (journal_write (list levent) g (iw_next (list levent) ls_next) fuel cfg (cs_j st) (wr_it wr))
         (fun '(j', it', n, _, e) =>
           let newrecs := skipn (length (flat (cs_j st))) (flat j') in
           let log' := cs_log st ++ map (fun r => (w, r)) newrecs in
           let fin := match e with
-                     | WNil => match ls_get it' with (_, Ok _) => false | _ => true end
+                     | WNil => match g it' with (_, Ok (Some _)) => false | _ => true end
                      | _ => true
                      end in
-          let failed := match e with WNil => false | _ => (n <=? 0)%nat end in
+          let failed := match e with
+                        | WNil => match g it' with (_, Ok _) => false | _ => true end
+                        | _ => (n <=? 0)%nat
+                        end in
           Ok {| cs_j := j'; cs_ws := set_nth w {| wr_it := it'; wr_done := fin; wr_failed := failed |} (cs_ws st); cs_log := log' |})
   end.
 
